@@ -350,6 +350,7 @@ func checkC13(p *Program, r *Report) {
 		return
 	}
 	fns := SrcFuncs(m.sp)
+	locksNotCopied(p, r, fns, "C13.R6")
 	// summaries: which methods lock their receiver (directly or through calls on the receiver)
 	locksRecv := map[*ssa.Function]bool{}
 	for changed := true; changed; {
@@ -567,4 +568,67 @@ func controlledByLookup(lk *ssa.Lookup, b *ssa.BasicBlock) bool {
 		}
 	}
 	return false
+}
+
+// containsLock: a value of type t carries a sync.Mutex / sync.RWMutex by value.
+func containsLock(t types.Type, depth int) bool {
+	if depth > 6 {
+		return false
+	}
+	if _, isPtr := t.Underlying().(*types.Pointer); isPtr {
+		return false
+	}
+	if isNamed(t, "sync", "Mutex") || isNamed(t, "sync", "RWMutex") {
+		return true
+	}
+	switch u := t.Underlying().(type) {
+	case *types.Struct:
+		for i := 0; i < u.NumFields(); i++ {
+			if containsLock(u.Field(i).Type(), depth+1) {
+				return true
+			}
+		}
+	case *types.Array:
+		return containsLock(u.Elem(), depth+1)
+	}
+	return false
+}
+
+// locksNotCopied (C13.R6, C01.R7): no value that carries a lock is copied (loaded as a whole, stored as a whole, passed or
+// returned by value). A copy of a scope taken while another goroutine is inside one of its operations is born with that
+// goroutine's lock state and nobody to release it: the first operation on the copy blocks for ever.
+func locksNotCopied(p *Program, r *Report, fns []*ssa.Function, rule string) {
+	n := 0
+	for _, fn := range fns {
+		k := 0
+		for _, b := range fn.Blocks {
+			for _, in := range b.Instrs {
+				v, ok := in.(ssa.Value)
+				if !ok {
+					continue
+				}
+				if _, isAlloc := in.(*ssa.Alloc); isAlloc {
+					continue
+				}
+				if u, ok := in.(*ssa.UnOp); ok {
+					if _, local := u.X.(*ssa.Alloc); local {
+						continue // a value built in place in this function (composite literal): its lock was never in use
+					}
+				}
+				if !containsLock(v.Type(), 0) {
+					continue
+				}
+				k++
+				r.Fail(rule, fmt.Sprintf("%s|lock copied #%d", funcName(fn), k), p.Pos(instrPos(in)), "a value of type "+v.Type().String()+" that carries a lock is copied as a whole: the copy inherits the lock state of that instant (held by another goroutine, it is never released) and the two copies no longer exclude each other")
+			}
+		}
+		for _, par := range fn.Params {
+			if containsLock(par.Type(), 0) {
+				k++
+				r.Fail(rule, fmt.Sprintf("%s|lock copied #%d", funcName(fn), k), p.Pos(fn.Pos()), "parameter "+par.Name()+" carries a lock and is passed by value")
+			}
+		}
+		n++
+	}
+	r.OK(rule, "lock-carrying values|never copied", "-", fmt.Sprintf("%d functions inspected: every value of a lock-carrying type is handled through its address", n))
 }
